@@ -197,7 +197,19 @@ def _run_case(case, ctx):
             rank = [int(rs.randint(1, min(s, 3) + 1)) for s in fshape]
             y = rs.standard_normal([n])
             mk = lambda it: TuckerRegressor(weight_ranks=rank, tol=0, reg_W=reg, n_iter_max=it, random_state=seed, verbose=0)
-        desc = {"gen": g, "n": n, "features": fshape, "target": oshape, "rank": rank, "reg_W": reg}
+        via_set = bool(rs.rand() < 0.4)
+        if via_set:
+            # the penalty configured after construction (set_params, as a grid search does): the sweeps minimise the objective of the
+            # value the estimator reports, not of the one it was built with
+            mk0, other_reg = mk, float(gen.choice(rs, [0.001, 100.0]))
+
+            def mk(it):
+                e_ = mk0(it)
+                e_.reg_W = other_reg
+                e_ = type(e_)(**e_.get_params())
+                e_.set_params(reg_W=reg)
+                return e_
+        desc = {"gen": g, "n": n, "features": fshape, "target": oshape, "rank": rank, "reg_W": reg, "reg_via_set_params": via_set}
         os_ = L[10:10 + len(oshape)]
         vals = []
         K = 6
